@@ -111,6 +111,24 @@ CLAIMS['C09'] = dict(
     note=("Known finding: SECT peptides of mRNA_end_NF selenoproteins whose Sec codon lies in the open-ended last node are not "
           "reported by the tool."),
     technique="TLA+ definitional oracle evaluated by TLC per recorded input (equality both directions)", ref='6 C09')
+CLAIMS['C18'] = dict(
+    text=("spec/FastaOps.tla defines source sets of header entries (variant ids looked up in the GVF that lists them, ORF -> "
+          "NovelORF, SECT, W2F -> CodonReassign, group map), the level list built from --order-source + GVF order + internal "
+          "sources, the priority order of source sets (size, then levels, whole-set items), database keys with max-groups / "
+          "additional-split / Remaining, merge as union, encode/decode. PoolOpsTrace has TLC check recorded runs of the real "
+          "splitFasta (each peptide in exactly one database, the right one, all entries kept, nothing new), summarizeFasta (rows = "
+          "counts per best source set, totals add up, equal to the sizes of the databases splitFasta makes under the same options), "
+          "mergeFasta (union of sequences and of entries) and encodeFasta (dictionary restores every header, decoy marks kept)."),
+    note="Wildcard order items ('*', '+') are not generated; source names contain no '-'; pools are synthetic.",
+    technique="TLA+ definitional spec; TLC validation of recorded command outputs", ref='6 C18')
+CLAIMS['C19'] = dict(
+    text=("FilterTrace.tla states the per-entry Keep rule, the miscleavage-range rule (sites of the isolated peptide from "
+          "Cleavage.tla) and the peptide rule; TLC requires the output of the real filterFasta (via --index-dir) to equal the "
+          "expected sub-collection exactly for random pools x expression tables (values at, below, above the cutoff; header / "
+          "skip-lines / column-name variants) x flags x denylists x miscleavage ranges x enzymes, and checks idempotence "
+          "(filter of its own output) and monotonicity (stricter cutoff gives a sub-collection) on paired runs."),
+    note="Integer expression values and cutoffs; closed miscleavage ranges only ('1:' crashes in the CLI's range parser and is not generated).",
+    technique="TLA+ rule evaluated by TLC on recorded runs, incl. paired runs", ref='6 C19')
 PENDING = "not claimed in this revision: check not built yet (work in progress, see DESIGN.md section 12)"
 NA = {}
 
